@@ -40,6 +40,7 @@ def _nfc_table(alphabet):
 
 
 NFC_TAB = _nfc_table(ALPHABET)
+ALPHABET_ALL = sorted(set(ALPHABET) | set(c for _a, _b, c in NFC_TAB))
 SCHEMES = ['none', 'braces', 'braces-almost-all', 'braces-all', 'braces-after-macro']
 POLICIES = ['keep', 'replace', 'ignore', 'fail', 'unihex']
 
@@ -51,7 +52,27 @@ RULE_POOL = [
     ('regex', [('é', "\\'e"), ('%%', '\\cw')], 'none'),
     ('call', [('a', 'Q', 1), ('%a', '\\x', 2)], ''),
     ('call', [('e', '\\textepsilon', 1), ('a', '\\priv', 1)], 'braces-after-macro'),
+    # left-context assertions: look-behind, start of string, word boundary (real \\b), negative look-behind
+    ('regex', [('a', 'A', ('in', [37])), ('e', 'E', ('bos', [])), ('a', 'W', ('wordstart', None)), ('%', 'N', ('notin', [97, 10]))], ''),
 ]
+
+
+def _left(left):
+    """(model kind, character set) of a left-context assertion; 'wordstart' is \\b before a word character"""
+    kind, chars = left
+    if kind == 'wordstart':
+        return 'notin', [c for c in ALPHABET_ALL if re.match(r'\w', chr(c))]
+    return kind, list(chars)
+
+
+def _left_regex(left):
+    kind, chars = left
+    if kind == 'bos':
+        return '^'
+    if kind == 'wordstart':
+        return r'\b'
+    cls = '[' + ''.join(re.escape(chr(c)) for c in chars) + ']'
+    return ('(?<=%s)' if kind == 'in' else '(?<!%s)') % cls
 
 
 def rule_tla(r):
@@ -59,7 +80,9 @@ def rule_tla(r):
     if t == 'dict':
         e = ', '.join('<<%d, %s>>' % (cp, tla_seq(rep)) for cp, rep in ent)
     elif t == 'regex':
-        e = ', '.join('<<%s, %s>>' % (tla_seq(lit), tla_seq(rep)) for lit, rep in ent)
+        e = ', '.join(('<<%s, %s>>' % (tla_seq(x[0]), tla_seq(x[1]))) if len(x) == 2 else
+                      ('<<%s, %s, <<"%s", {%s}>>>>' % (tla_seq(x[0]), tla_seq(x[1]), _left(x[2])[0], ', '.join(map(str, _left(x[2])[1]))))
+                      for x in ent)
     else:
         e = ', '.join('<<%s, %s, %d>>' % (tla_seq(lit), tla_seq(rep), c) for lit, rep, c in ent)
     return '[t |-> "%s", ent |-> <<%s>>, prot |-> "%s"]' % (t, e, prot)
@@ -142,8 +165,9 @@ def build_encoder(c, pool=RULE_POOL, cls=None):
         if t == 'dict':
             rules.append(UnicodeToLatexConversionRule(RULE_DICT, dict(ent), **kw))
         elif t == 'regex':
-            rules.append(UnicodeToLatexConversionRule(RULE_REGEX, [(re.compile(re.escape(lit)), rep.replace('\\', '\\\\'))
-                                                                    for lit, rep in ent], **kw))
+            rules.append(UnicodeToLatexConversionRule(RULE_REGEX, [
+                (re.compile((_left_regex(x[2]) if len(x) > 2 else '') + re.escape(x[0])), x[1].replace('\\', '\\\\'))
+                for x in ent], **kw))
         else:
             lc = LoggingCallable(ent)
             callables[j + 1] = lc
